@@ -42,9 +42,9 @@ func (c18) Assumptions() []string {
 }
 
 func (c18) RequiredCounters(string) []string {
-	return []string{"msgs_delivered", "msgs_checked", "conns_opened", "shared_conns", "conns_closed_after_last_sub", "hook_ws.subscribe.beforeWrite",
+	return []string{"msgs_delivered", "msgs_checked", "conns_opened", "shared_conns", "conns_closed_after_last_sub", "ws_conns_closed_after_last_sub", "hook_ws.subscribe.beforeWrite",
 		"cancel_dial.ack", "cancel_dial.upgrade", "cancel_subscribe.write", "waiters_parked", "isolation_comparisons", "distinct_tuple_pairs_on_distinct_conns",
-		"fault_victim_errors", "idle_linger_reuse",
+		"fault_victim_errors", "idle_linger_reuse", "k7_ws_idle_close_observed",
 		"scen_K1", "scen_K2", "scen_K3", "scen_K4", "scen_K5", "scen_K6", "scen_K7", "scen_K8", "scen_K9", "scen_stress"}
 }
 
@@ -132,6 +132,7 @@ func (p c18) Run(c *fw.Ctx, idx int) fw.Result {
 		}
 		res.Observe("idle_variants", fmt.Sprintf("%s/idle=%dms", pp.Variant, pp.IdleMs))
 		res.Nontrivial = exp.ClosedAfterLast > 0
+		res.Count("k7_ws_idle_close_observed", int64(exp.WSClosedAfterLast))
 	case "K8":
 		mode := "drop"
 		if sub%10 >= 7 {
